@@ -444,7 +444,8 @@ impl Gen {
             }
         }
         match prefix {
-            Some(p) => format!("{{ {p} match {scrut} {{ {} }} }}", arms.join(", ")),
+            // in parentheses: a block that opens an f-string interpolation would read `{{`
+            Some(p) => format!("({{ {p} match {scrut} {{ {} }} }})", arms.join(", ")),
             None => format!("match {scrut} {{ {} }}", arms.join(", ")),
         }
     }
@@ -483,7 +484,8 @@ impl Gen {
             arms.push(format!("C => {}", self.expr(ty, d)));
         }
         match prefix {
-            Some(p) => format!("{{ {p} match {scrut} {{ {} }} }}", arms.join(", ")),
+            // in parentheses: a block that opens an f-string interpolation would read `{{`
+            Some(p) => format!("({{ {p} match {scrut} {{ {} }} }})", arms.join(", ")),
             None => format!("match {scrut} {{ {} }}", arms.join(", ")),
         }
     }
